@@ -320,8 +320,13 @@ def lemma_queue_file_blocks(ctx):
     ctx.paths += len(paths)
     mode = cv["reflink"]
     kinds = set()
+    n_bound = 0
     for p in paths:
         names = trace_names(p)
+        if p.status == "bound" and any(e.name == "next_sparse_segments" for e in p.trace):
+            n_bound += 1      # more data segments than the unrolling bound in the SEEK_DATA/SEEK_HOLE fallback: outside the claim
+            # ... except for progress: every segment queued so far must be the one the search returned
+            continue
         if p.status != "return":
             ctx.fail("queue_file_blocks: path ends in return", "%s %s %s" % (p.status, p.msg, names))
             continue
@@ -374,8 +379,29 @@ def lemma_queue_file_blocks(ctx):
             for e in q:
                 tot = tot + (e.args[1].t - e.args[0].t)
             ctx.lemma(eng, "queue_file_blocks reports the bytes it queued", p.pc, p.ret.fields[0].t == tot)
+        elif [e for e in p.trace if e.name == "next_sparse_segments"]:
+            # no extent map: the data segments come from SEEK_DATA/SEEK_HOLE; each queued range is the segment just found
+            kinds.add("segments")
+            nss = [e for e in p.trace if e.name == "next_sparse_segments" and isinstance(e.ret, tuple)]
+            ctx.lemma(eng, "C11: the segment walk is used only for files that look sparse", p.pc, sp[0].ret.t)
+            if len(q) != len(nss):
+                ctx.fail("C01/C11: one queued range per data segment found, none dropped", "%d vs %d; %s" % (len(q), len(nss), names))
+            else:
+                pos = z3.IntVal(0)
+                for e, r in zip(nss, q):
+                    d_, h_ = e.ret
+                    ctx.lemma(eng, "C01/C11: the segment search continues where the previous segment ended, and exactly [data, hole) is queued", p.pc,
+                              z3.And(e.args[2].t == pos, r.args[0].t == d_.t, r.args[1].t == h_.t))
+                    pos = h_.t
+                ctx.lemma(eng, "C01/C07: the segment walk ends exactly when the position reaches the file length", p.pc, pos >= length.t)
         else:
             kinds.add("whole")
+            # C11: the dense whole-file range is only acceptable for a file that does not look sparse.  When the extent map is
+            # unavailable (FIEMAP unsupported: tmpfs and others that do support SEEK_HOLE) a sparse-looking file is copied
+            # densely and every hole is materialised -- parfile walks SEEK_DATA/SEEK_HOLE for the same file
+            if sp and isinstance(sp[0].ret, BoolV):
+                ctx.lemma(eng, "C11: a file that looks sparse is never queued as one dense range (an unavailable extent map needs a hole-aware fallback)",
+                          p.pc, z3.Not(sp[0].ret.t), key="parblock:no-extent-map-dense-copy", info={"trace": names})
             (ctx.passed if len(q) == 1 else ctx.fail)("C01: whole-file copy queues exactly one range", str(names))
             ctx.lemma(eng, "C01: the whole-file range is 0..len", p.pc, z3.And(q[0].args[0].t == 0, q[0].args[1].t == length.t))
         # C20: when queue_file_blocks returns, the dispatcher's own reference is gone
@@ -387,7 +413,8 @@ def lemma_queue_file_blocks(ctx):
             "references left: %r, queued ranges: %d; %s" % (left, len(q), names))
     for k in ["whole", "cloned", "sparse-empty"] + ["extents%d" % i for i in range(1, nmax + 1)]:
         (ctx.passed if k in kinds else ctx.fail)("witness: path kind " + k, str(sorted(kinds)))
-    ctx.bounds = "extent lists of 0..%d extents; all reflink modes x clone outcomes; whole-file / extent / unsupported branches; one fault" % nmax
+    ctx.bounds = ("extent lists of 0..%d extents; all reflink modes x clone outcomes; whole-file / extent / no-extent-map (segment walk, up to %d segments; %d deeper paths cut) branches; one fault"
+                  % (nmax, eng.loop_bound, n_bound))
 
 
 def lemma_partition_native(ctx):
